@@ -220,7 +220,8 @@ def _loop_source_filtered(fn, name, call, filtered):
 
 
 # --------------------------------------------------------------------------------------------------------------- CTOR
-def rebuild_ctor_obligations(model, rep, fns, clause, rule="CTOR"):
+def rebuild_ctor_obligations(model, rep, fns, clause, rule="CTOR", only=None):
+    """``only``: the constructor parameters the borrowing property depends on (None = all of them)."""
     n = 0
     for fn in fns:
         for c in calls_in(fn):
@@ -260,7 +261,7 @@ def rebuild_ctor_obligations(model, rep, fns, clause, rule="CTOR"):
             obj, ps = src[0]
             missing = []
             for p in sorted(defaulted - set(bound)):
-                if cls.find_method(p) is not None:  # exposed as a property of the class -> part of the object's state
+                if cls.find_method(p) is not None and (only is None or p in only):  # exposed as a property of the class -> part of the object's state
                     missing.append(p)
             n += 1
             rep.instance(rule, fn.loc(c))
@@ -679,4 +680,35 @@ def close_then_truncate_obligations(model, rep, fns, clause, rule="TRUNC"):
             rep.ob(rule, fn.anchor, "a value tested to be close to an integer is converted through its rounded value", False,
                    f"`{norm_src(c)[:50]}` truncates `{norm_src(tgt)}`, which `{norm_src(tested[norm_src(tgt)])[:60]}` only showed to be within tolerance of an integer "
                    f"(12.999999 -> 12)", node=c, fn=fn, clause=clause)
+    return n
+
+
+# ----------------------------------------------------------------------------------------------------------------------------------------------------------
+# WPARAM - with_params forwards every option it names
+
+
+def with_params_forwarding_obligations(model, rep, clause, only, rule="WPARAM"):
+    """`Model.with_params(opt=...)` is the route the loaders use to configure a model; it returns ParametrizedModel(cls, ...), which later calls cls(template, mask,
+    **kwargs).  Every option that with_params names must be handed on under its own name - a dropped keyword silently builds the model with that option's default
+    (no filter, identity rotation, no wedge) while a model constructed directly with the same option behaves differently."""
+    n = 0
+    for fn in model.all_functions:
+        if fn.name != "with_params" or fn.cls is None or not fn.is_classmethod:
+            continue
+        a = fn.node.args
+        named = [x for x in [x.arg for x in list(a.posonlyargs) + list(a.args)][1:] + [x.arg for x in a.kwonlyargs] if x in only]  # the options this property is about
+        if not named:
+            continue
+        calls = [c for c in calls_in(fn) if (dotted(c.func) or "").rsplit(".", 1)[-1] == "ParametrizedModel"]
+        for c in calls:
+            n += 1
+            rep.instance(rule, fn.loc(c))
+            if any(k.arg is None for k in c.keywords):
+                continue  # forwards a dictionary: not decided here
+            passed = {k.arg: k.value for k in c.keywords}
+            missing = [p for p in named if p not in passed]
+            wrong = [p for p in named if p in passed and p not in {x.id for x in ast.walk(passed[p]) if isinstance(x, ast.Name)}]
+            rep.ob(rule, fn.anchor, "with_params hands every option it names to the parametrised model under the same name", not missing and not wrong,
+                   (f"`{norm_src(c)[:80]}` does not pass {missing}: models built through with_params ignore the option" if missing else
+                    f"{wrong} is passed a value that does not derive from the parameter of that name"), node=c, fn=fn, clause=clause)
     return n
